@@ -18,6 +18,7 @@ import (
 type srvRec struct {
 	mu       sync.Mutex
 	inv      int  // handler invocations that carried this id
+	started  bool // an invocation is being served
 	mismatch bool // the payload or the method differs from what the client built
 
 	recv    [][]byte // client messages in the order of arrival
@@ -240,7 +241,8 @@ func (w *world) handle(ctx rpc.Context, ch rpc.ServerChannel) (res ref.R[[]byte]
 	if sabotage == "dup" && id%7 == 0 {
 		rec.inv++ // self test: pretend a second invocation
 	}
-	first := rec.inv <= 2 && !rec.done && !rec.retSet && len(rec.recv) == 0 && rec.sent == 0 && rec.inv-1 <= 1 && firstInvocation(rec)
+	first := !rec.started
+	rec.started = true
 	rec.mismatch = rec.mismatch || mismatch
 	rec.mu.Unlock()
 	if !first {
